@@ -13,6 +13,7 @@ from . import pcheck
 
 GENS = ["c02", "c03", "c04", "c05", "c06", "c07", "c08", "c09", "c10", "c11", "c12", "c13", "c14", "c15", "c16", "c17", "c19", "c20",
         "c22", "c24"]
+FULL = {"C16", "C17", "C19", "C20"}   # finite-domain / CLP(Z) / compound generators: every quick-tier case
 CONE = ["Proofs/PanicProofs.vo", "Proofs/CLPZProofs.vo", "Proofs/KeyProofs.vo", "Proofs/KeyStream.vo"]
 
 
@@ -40,7 +41,7 @@ def run(tier, seed, replay=None):
             by = {}
             for g, c in allc:
                 by.setdefault(g, []).append(c)
-            allc = [(g, c) for g in sorted(by) for c in rnd.sample(by[g], min(len(by[g]), 120))]
+            allc = [(g, c) for g in sorted(by) for c in (by[g] if g in FULL else rnd.sample(by[g], min(len(by[g]), 150)))]
         else:
             allc += collect("quick", seed + 1000) + collect("quick", seed + 2000)
     lines = [c["line"] for _, c in allc]
@@ -69,7 +70,7 @@ def run(tier, seed, replay=None):
     res.coverage.update({
         "evaluations": len(lines), "distinct_nontrivial": len({l for l, i in zip(lines, impl) if i.answers}),
         "rule": "the programs of every generator of the framework (C02-C17, C19, C20, C22, C24; the quick-tier set of each, sampled to at most "
-                "120 per generator in the quick tier, three seeds in the thorough tier) run to exhaustion or to their answer/step bound on a "
+                "150 per generator in the quick tier (all cases of the FD, CLP(Z) and compound generators), three seeds in the thorough tier) run to exhaustion or to their answer/step bound on a "
                 "debug build (overflow checks on) under a panic hook and per-case catch_unwind; any panic is a violation; the model must end "
                 "each run the same way and never with a panic outcome; non-trivial = at least one answer",
         "samples": [lines[0], lines[len(lines) // 2], lines[-1]], "per_generator": per_gen, "impl_end_distribution": ends,
